@@ -63,6 +63,7 @@ type PBlock struct {
 	Strings                        []string
 	Groups                         []PGroup
 	Lay                            int
+	NoST                           bool // damage: the (required) stringtable field is left out
 }
 
 type PFile struct {
@@ -468,6 +469,9 @@ func ordered(rev bool, parts ...func()) {
 func (bl *PBlock) primitiveBlock() []byte {
 	var p pbw
 	st := func() {
+		if bl.NoST {
+			return
+		}
 		var s pbw
 		for _, x := range bl.Strings {
 			s.Bytes(1, []byte(x))
